@@ -1,1 +1,41 @@
-From VP Require Import Store.Tenant Store.TenantRun.
+(* Store/TenantProps.v — the C22 property theorems (statements only; proofs in TenantProofs.v).
+
+   Reading of the property text on the model (Store/Tenant.v):
+   * a history is a list of operations (create/delete tenant, deploy/delete/reload pipeline, restart) run by
+     run_ops with a write budget: [Some n] = the process dies when it attempts its (n+1)-th store write, the
+     operation during which that happens is the in-flight one and nothing after it runs; [None] = no crash.
+   * w_acked = the manager after the last operation that completed (what had been acknowledged),
+     w_mem   = the manager including the in-flight operation; without a crash they coincide.
+   * recover (w_store w) = what a restarted server's TenantManager::recover builds.
+   * w_fresh = every create used an id that was neither in the manager nor in the store (uuid v4).
+   Managers are compared as sets of tenant snapshots (Permutation): id, name, API key, and the pipelines
+   with id, name, source and status. *)
+From Coq Require Import Permutation.
+From VP Require Import Base.Tactics Store.Tenant Store.TenantRun Store.TenantProofs.
+Open Scope N_scope.
+
+Theorem C22_recover : forall ops budget, w_fresh (run_ops ops budget) = true ->
+  let w := run_ops ops budget in
+  if w_frozen w
+  then Permutation (recover (w_store w)) (w_acked w) \/ Permutation (recover (w_store w)) (w_mem w)
+  else Permutation (recover (w_store w)) (w_acked w).
+Proof. exact recover_acknowledged. Qed.
+
+Theorem C22_restart_keeps_state : forall ops budget,
+  w_fresh (run_ops ops budget) = true -> w_frozen (run_ops ops budget) = false ->
+  Permutation (w_mem (run_ops (ops ++ [ORestart]) budget)) (w_mem (run_ops ops budget)).
+Proof. exact restart_keeps_state. Qed.
+
+Example C22_hypotheses_satisfiable :
+  let ops := [OCreate 1 1 1; ODeploy 1 1 1 0; OCreate 2 2 2; OReload 1 1 1; ORestart; ODeploy 2 2 2 2; ODelPipe 1 1; ODelTenant 2] in
+  (* crash inside the reload (its snapshot written, its index write lost): the reload is visible *)
+  let w := run_ops ops (Some 7%nat) in
+  w_fresh w = true /\ w_frozen w = true /\ w_acked w <> w_mem w /\
+  recover (w_store w) = [mkT 1 1 1 [mkP 1 1 1 0]; mkT 2 2 2 []] /\
+  (* crash inside the final delete-tenant (snapshot deleted, index still lists it): the tenant is gone *)
+  let w' := run_ops ops (Some 13%nat) in
+  w_fresh w' = true /\ w_frozen w' = true /\ recover (w_store w') = [mkT 1 1 1 []] /\
+  (* a second create with a used id is what the hypothesis excludes *)
+  w_fresh (run_ops [OCreate 1 1 1; ODelTenant 1; OCreate 1 2 2] None) = true /\
+  w_fresh (run_ops [OCreate 1 1 1; OCreate 1 2 2] None) = false.
+Proof. vm_compute. repeat split; try discriminate. Qed.
